@@ -47,6 +47,15 @@ Theorem C01_input_layer : forall n pa sv v prods, input_impl n pa sv v prods = i
 Proof. exact input_impl_full. Qed.
 Print Assumptions C01_input_layer.
 
+(* PREPARED for the two proposed repairs /verif/fixes/proposed_fix_C01_D22.diff and _D22b.diff (generated in-edge names and
+   input labels made unique against user names): with the switches Edges.fixed_D22 and Edges.fixed_D22b on, the guard holds of
+   every network and C01_full is unconditional.  (Both patches validated on scratch worktrees with the switches on: ./check C01
+   green with the names / labels streams as regression streams.) *)
+Theorem C01_full_unconditional_when_names_fixed : fixed_D22 = true -> fixed_D22b = true ->
+  forall n, wf n = true -> guard n = true /\ forall st pa v, deriv_impl n st pa v = deriv n st pa v.
+Proof. exact (fun H1 H2 n _ => conj (guard_when_names_fixed H1 H2 n) (deriv_impl_full n)). Qed.
+Print Assumptions C01_full_unconditional_when_names_fixed.
+
 (* BEFORE fix D59 (model switch Edges.fixed_D3 = false: _collect_from_edges keyed by the source node only) the full statement
    was false: two different variables of ONE source node projecting to the same target variable delivered (w1+w2) * first
    variable.  The witness (13/8 vs 17/8 on the unrepaired code) is now the regression case corpus/C01/d3_witness.json. *)
